@@ -25,6 +25,24 @@ use crate::swap_manager::*;
 pub open spec fn group_rel(g: int, gs: int, p: int) -> bool {
     group_price(g, gs) <= p <= group_price(g + 1, gs) && -443637 - gs < g * gs <= 443636
 }
+/// p lies in tick group g or on one of its two boundary prices
+pub open spec fn in_group(g: int, gs: int, p: int) -> bool { group_price(g, gs) <= p <= group_price(g + 1, gs) }
+/// C14 for one swap on an adaptive-fee pool: what is stored for the next swap
+pub open spec fn adaptive_post(w: Whirlpool, info: AdaptiveFeeInfo, a_to_b: bool, timestamp: u64, u: PostSwapUpdate) -> bool {
+    let c = info.constants; let gs = c.tick_group_size as int;
+    let g0 = w.tick_current_index as int / gs;
+    u.next_adaptive_fee_info matches Some(i) && reference_after(info.variables, g0 as i32, timestamp, c) matches Some(rv) && ({
+        &&& i.constants == c
+        // the reference follows the filter / decay / reset rules, evaluated once at the start of the swap
+        &&& i.variables.volatility_reference == rv.volatility_reference && i.variables.tick_group_index_reference == rv.tick_group_index_reference
+        &&& i.variables.last_reference_update_timestamp == rv.last_reference_update_timestamp
+        // the major-swap timestamp is set exactly when the price moved by the configured threshold
+        &&& i.variables.last_major_swap_timestamp == (if major_swap_spec(w.sqrt_price as int, u.next_sqrt_price as int, c.major_swap_threshold_ticks as int) { timestamp } else { info.variables.last_major_swap_timestamp })
+        // the stored accumulator is that of a tick group the final price lies in (or on the boundary of): min(reference + distance * 10_000, max)
+        &&& exists|g: int| in_group(g, gs, u.next_sqrt_price as int) && i.variables.volatility_accumulator as int == #[trigger] accumulator_at(rv, g, c)
+        &&& i.variables.volatility_accumulator <= c.max_volatility_accumulator
+    })
+}
 /// everything in the manager except the tick group and the accumulator is fixed for the duration of one swap
 pub open spec fn mgr_fixed(m: FeeRateManager, m0: FeeRateManager) -> bool {
     m is Adaptive && m0 is Adaptive && m->a_to_b == m0->a_to_b && m->Adaptive_static_fee_rate == m0->Adaptive_static_fee_rate && m->adaptive_fee_constants == m0->adaptive_fee_constants
@@ -50,6 +68,7 @@ pub open spec fn adaptive_ok(info: AdaptiveFeeInfo, tick_spacing: u16) -> bool {
         tick_price_consistent(whirlpool.tick_current_index as int, whirlpool.sqrt_price as int),
     ensures
         r matches Ok(u) ==> swap_post(*whirlpool, amount, sqrt_price_limit, amount_specified_is_input, a_to_b, *u),
+        r matches Ok(u) ==> adaptive_post(*whirlpool, adaptive_fee_info->0, a_to_b, timestamp, *u), //# C14
 //@ rewrite /\.map_or_else\(\|_\| \(None, false\), \|tick\| \(Some\(tick\), tick\.initialized\)\)/ => /.map_or_else_tick()/
 //@ loop 0
         invariant
@@ -67,6 +86,10 @@ pub open spec fn adaptive_ok(info: AdaptiveFeeInfo, tick_spacing: u16) -> bool {
             g_lo <= curr_tick_index <= g_hi, //# C05
             forall|t: int| g_lo < t <= g_hi ==> !#[trigger] seq_init(*swap_tick_sequence, t), //# C05
             curr_liquidity == g_liq, //# C05
+            // C14: the stored accumulator belongs to a group the current price lies in (once the first step has been made)
+            g_upd || (amount_remaining == amount && curr_sqrt_price == whirlpool.sqrt_price), //# C14
+            g_upd ==> in_group(g_acc, g_m0->adaptive_fee_constants.tick_group_size as int, curr_sqrt_price as int)
+                && fee_rate_manager->adaptive_fee_variables.volatility_accumulator as int == accumulator_at(g_m0->adaptive_fee_variables, g_acc, g_m0->adaptive_fee_constants), //# C14
             // C14: while the swap goes on, the manager's tick group is the group of the current price
             (amount_remaining > 0 && adjusted_sqrt_price_limit != curr_sqrt_price) ==> group_rel(fee_rate_manager->tick_group_index as int, g_m0->adaptive_fee_constants.tick_group_size as int, curr_sqrt_price as int), //# C14
             (amount_remaining > 0 && adjusted_sqrt_price_limit != curr_sqrt_price) ==> (if a_to_b { (curr_tick_index as int) < (fee_rate_manager->tick_group_index as int + 1) * g_m0->adaptive_fee_constants.tick_group_size as int }
@@ -97,13 +120,16 @@ pub open spec fn adaptive_ok(info: AdaptiveFeeInfo, tick_spacing: u16) -> bool {
                 forall|t: int| g_lo < t <= g_hi ==> !#[trigger] seq_init(*swap_tick_sequence, t), //# C05
                 curr_liquidity == g_liq, //# C05
                 a_to_b ==> g_lo <= next_tick_index, !a_to_b ==> next_tick_index <= g_hi + 1, //# C05
+                g_upd || (amount_remaining == amount && curr_sqrt_price == whirlpool.sqrt_price), //# C14
+                g_upd ==> in_group(g_acc, g_m0->adaptive_fee_constants.tick_group_size as int, curr_sqrt_price as int)
+                    && fee_rate_manager->adaptive_fee_variables.volatility_accumulator as int == accumulator_at(g_m0->adaptive_fee_variables, g_acc, g_m0->adaptive_fee_constants), //# C14
             ensures
                 (amount_remaining > 0 && adjusted_sqrt_price_limit != curr_sqrt_price) ==> group_rel(fee_rate_manager->tick_group_index as int, g_m0->adaptive_fee_constants.tick_group_size as int, curr_sqrt_price as int), //# C14
                 (amount_remaining > 0 && adjusted_sqrt_price_limit != curr_sqrt_price) ==> (if a_to_b { (curr_tick_index as int) < (fee_rate_manager->tick_group_index as int + 1) * g_m0->adaptive_fee_constants.tick_group_size as int }
                     else { curr_tick_index as int >= fee_rate_manager->tick_group_index as int * g_m0->adaptive_fee_constants.tick_group_size as int }), //# C14
 //@ inject before /while amount_remaining > 0 && adjusted_sqrt_price_limit != curr_sqrt_price \{/
     let ghost mut g_lo: int = curr_tick_index as int; let ghost mut g_hi: int = curr_tick_index as int; let ghost mut g_liq: u128 = curr_liquidity;
-    let ghost g_m0 = fee_rate_manager;
+    let ghost g_m0 = fee_rate_manager; let ghost mut g_upd: bool = false; let ghost mut g_acc: int = 0;
     proof { axiom_price_at(); lemma_new_group(*whirlpool, a_to_b, timestamp, adaptive_fee_info->0); }
 //@ inject before /let \(next_tick_sqrt_price, sqrt_price_target\) =/
         proof { axiom_price_at(); }
@@ -112,6 +138,9 @@ pub open spec fn adaptive_ok(info: AdaptiveFeeInfo, tick_spacing: u16) -> bool {
             proof { axiom_price_at(); }
             let ghost g_step_liquidity = curr_liquidity; let ghost g_step_price = curr_sqrt_price; let ghost g_fee_split_done = false;
             let ghost g_step_group = fee_rate_manager->tick_group_index as int;
+//@ inject after /fee_rate_manager\.update_volatility_accumulator\(\)\?;/
+            // C14: this step is charged static + adaptive rate of the manager's tick group, which is the group of the price the step starts from
+            proof { g_upd = true; g_acc = g_step_group; lemma_gp_mono(g_step_group, g_step_group + 1, g_m0->adaptive_fee_constants.tick_group_size as int); }
 //@ inject before /let swap_computation = compute_swap\(/
             proof { lemma_bounded_side(fee_rate_manager, curr_sqrt_price as int, sqrt_price_target, curr_liquidity); }
             let ghost g_rem_before = amount_remaining;
@@ -126,6 +155,11 @@ pub open spec fn adaptive_ok(info: AdaptiveFeeInfo, tick_spacing: u16) -> bool {
             proof {
                 let gs = g_m0->adaptive_fee_constants.tick_group_size as int; let ts = tick_spacing as int;
                 let g2 = fee_rate_manager->tick_group_index as int;
+                lemma_acc_group(g_mgr, fee_rate_manager, g_step_group, g_step_price as int, curr_sqrt_price as int, bounded_sqrt_price_target as int, sqrt_price_target, g_step_liquidity, adaptive_fee_update_skipped, next_tick_sqrt_price as int, next_tick_index as int);
+                if adaptive_fee_update_skipped {
+                    let last = skip_last_group(curr_sqrt_price as int, next_tick_sqrt_price as int, next_tick_index as int, gs, a_to_b);
+                    if (if a_to_b { last < g_step_group } else { last > g_step_group }) { g_acc = last; }
+                }
                 if amount_remaining > 0 {
                     assert(curr_sqrt_price == bounded_sqrt_price_target);
                     if !adaptive_fee_update_skipped {
@@ -180,6 +214,42 @@ pub proof fn lemma_group_bounds(g: int, gs: int, p: int) requires group_rel(g, g
     assert(-GROUP_BOUND() + 1 < g < GROUP_BOUND() - 1) by(nonlinear_arith) requires -443637 - gs < g * gs <= 443636, 1 <= gs <= 65535;
 }
 
+/// where the price stands after a step, relative to the group whose accumulator the manager holds afterwards
+pub proof fn lemma_acc_group(m1: FeeRateManager, m2: FeeRateManager, g: int, p0: int, p1: int, bounded: int, target: u128, liq: u128, skipped: bool, ntp: int, n: int)
+    requires m1 is Adaptive, core_ok(m1), g == m1->tick_group_index as int, group_rel(g, m1->adaptive_fee_constants.tick_group_size as int, p0), 1 <= m1->adaptive_fee_constants.tick_group_size <= 65535,
+        price_ok(target as int), price_ok(p0), price_ok(p1), m1->a_to_b ==> target as int <= p0, !m1->a_to_b ==> target as int >= p0,
+        (bounded, skipped) == (bounded_target_spec(m1, target, liq).0 as int, bounded_target_spec(m1, target, liq).1),
+        m1->a_to_b ==> bounded <= p1 <= p0, !m1->a_to_b ==> p0 <= p1 <= bounded, tick_ok(n), ntp == price_at(n),
+    ensures ({ let gs = m1->adaptive_fee_constants.tick_group_size as int; let a_to_b = m1->a_to_b;
+        let last = skip_last_group(p1, ntp, n, gs, a_to_b);
+        let moved = if a_to_b { last < g } else { last > g };
+        (!skipped ==> in_group(g, gs, p1)) && (skipped && !moved ==> in_group(g, gs, p1)) && (skipped && moved ==> in_group(last, gs, p1)) }),
+{
+    axiom_price_at(); axiom_tick_of(p1);
+    let gs = m1->adaptive_fee_constants.tick_group_size as int; let a_to_b = m1->a_to_b;
+    lemma_group_arith(g, gs); lemma_gp_mono(g, g + 1, gs); lemma_bounded_side(m1, p0, target, liq);
+    let T = if p1 == ntp { n } else { tick_of(p1) };
+    vstd::arithmetic::div_mod::lemma_fundamental_div_mod(T, gs); vstd::arithmetic::div_mod::lemma_mod_bound(T, gs);
+    let q = T / gs;
+    assert(gs * q == q * gs) by(nonlinear_arith);
+    lemma_group_arith(q, gs);
+    let last = skip_last_group(p1, ntp, n, gs, a_to_b);
+    // the group of the floor tick contains the price
+    assert(price_at(T) <= p1);
+    assert(p1 == price_at(T) || (T < 443636 ==> p1 < price_at(T + 1)));
+    if skipped {
+        if last == q { lemma_gp_mono(q, q + 1, gs);
+            assert(group_price(q, gs) <= price_at(T)) by { if q * gs < -443636 { } else if q * gs < T { } }
+            assert(p1 <= group_price(q + 1, gs)) by { if (q + 1) * gs > 443636 { } else if p1 == price_at(T) { if T < (q + 1) * gs { } } else { if T + 1 < (q + 1) * gs { } } }
+            if a_to_b { if last >= g { lemma_gp_mono(g, last, gs); } } else { if last <= g { lemma_gp_mono(last + 1, g + 1, gs); } }
+        } else {
+            // on a group boundary moving up: the price is the upper boundary of group q - 1
+            assert(last == q - 1 && T % gs == 0 && p1 == price_at(T) && T == q * gs);
+            lemma_group_arith(q - 1, gs); lemma_gp_mono(q - 1, q, gs);
+            if last <= g { lemma_gp_mono(last + 1, g + 1, gs); }
+        }
+    }
+}
 /// the bounded target lies between the requested target and the current price
 pub proof fn lemma_bounded_side(m: FeeRateManager, p: int, target: u128, liq: u128)
     requires m is Adaptive, core_ok(m), group_rel(m->tick_group_index as int, m->adaptive_fee_constants.tick_group_size as int, p), 1 <= m->adaptive_fee_constants.tick_group_size <= 65535,
